@@ -22,7 +22,7 @@ func C16(c *Ctx) {
 	const r1 = "K7.decoded-length-discipline"
 	c.Rule(r1, "in packages kv, manifest, percolator, raftstore/engine, raftstore/command, raftstore/store, wal and the root package: a length decoded from input bytes (Uvarint, fixed-width big/little-endian, binary.Read) reaches a make() size or – after conversion to a signed/narrower integer – a slice bound / index only behind a relational comparison on the unconverted value")
 	const r2 = "K7u.uvarint-count-checked"
-	c.Rule(r2, "the byte count returned by binary.Uvarint is compared with a constant (n <= 0 / n < 0 …) in the calling function before it is used")
+	c.Rule(r2, "the byte count returned by binary.Uvarint is compared with a constant in the calling function before it is used, by a test that separates n == 0 (truncated varint) from n > 0 (n <= 0, n == 0, n > 0, n < 1 …; `n < 0` alone accepts a varint cut in the middle as value 0)")
 	fs := taintScan(c.P, decoderPkgs)
 	nA, nU := 0, 0
 	ord := map[string]int{}
@@ -45,8 +45,58 @@ func C16(c *Ctx) {
 		if f.OK {
 			c.Pass(rule, k, f.In.Pos(), 2, "%s: guarded", f.Detail)
 		} else {
-			c.Fail(rule, k, f.In.Pos(), 2, "%s: not guarded – a corrupt or hostile input can make this panic or allocate without bound", f.Detail)
+			if f.Kind == "uvarint-n" {
+				c.Fail(rule, k, f.In.Pos(), 2, "%s: no test separates n == 0 from n > 0 – a varint cut in the middle (truncated input) decodes as value 0 with nothing consumed instead of an error", f.Detail)
+			} else {
+				c.Fail(rule, k, f.In.Pos(), 2, "%s: not guarded – a corrupt or hostile input can make this panic or allocate without bound", f.Detail)
+			}
 		}
+	}
+	// manifest.readBytes: a length prefix that cannot be read or points past the record must
+	// trip the callers' `pos > len(data)` truncation check, not read as an empty key
+	if fn := c.FnOpt("manifest", "readBytes"); fn != nil && len(fn.Params) == 1 {
+		const r3 = "K7u.unreadable-length-is-an-error"
+		c.Rule(r3, "every return of manifest.readBytes that hands back no bytes (nil) reports either 0 consumed behind the `len(data) == 0` edge (an absent optional field) or more than len(data) consumed (len(data)+k, k > 0), which trips decodeEdit's truncation check; `len(data)` consumed would turn an oversized or truncated length prefix into an empty key")
+		isLenData := func(v ssa.Value) bool {
+			call, ok := Unwrap(v).(*ssa.Call)
+			if !ok {
+				return false
+			}
+			bi, ok := call.Call.Value.(*ssa.Builtin)
+			return ok && bi.Name() == "len" && len(call.Call.Args) == 1 && Unwrap(call.Call.Args[0]) == fn.Params[0]
+		}
+		n, bad := 0, 0
+		for _, r := range Returns(fn) {
+			if len(r.Results) != 2 || !IsNilConst(r.Results[0]) {
+				continue
+			}
+			n++
+			cnt := Unwrap(r.Results[1])
+			if k, ok := ConstInt(cnt); ok && k == 0 {
+				// only behind len(data) == 0
+				okEdge := false
+				for _, b := range fn.Blocks {
+					if ifi := ifOf(b); ifi != nil {
+						if bo, ok := ifi.Cond.(*ssa.BinOp); ok && bo.Op == token.EQL && isLenData(bo.X) {
+							if k0, isC := ConstInt(bo.Y); isC && k0 == 0 && EdgeDominates(b, b.Succs[0], r.Block()) {
+								okEdge = true
+							}
+						}
+					}
+				}
+				if !okEdge {
+					bad++
+				}
+				continue
+			}
+			if bo, ok := cnt.(*ssa.BinOp); ok && bo.Op == token.ADD && isLenData(bo.X) {
+				if k, isC := ConstInt(bo.Y); isC && k > 0 {
+					continue
+				}
+			}
+			bad++
+		}
+		c.Decide(n > 0 && bad == 0, r3, key(fn, "failure-consumes-more-than-the-record"), fn.Pos(), n+1, "an unreadable or oversized length prefix trips the truncation check", "manifest.readBytes answers an unreadable or oversized length prefix with `nothing read, len(data) consumed`: decodeEdit takes it for an empty key, drops the rest of the record and returns a nil error (manifest records carry no checksum, so Verify and Open accept the damaged manifest)")
 	}
 	c.Floor(r1, nA, 8, "decoded-length sinks")
 	c.Floor(r2, nU, 5, "binary.Uvarint call sites")
